@@ -260,10 +260,12 @@ Qed.
 
 Lemma regs_valid : forall tbl s, Inv tbl s -> Forall (valid tbl) (early s) /\ Forall (valid tbl) (normal s) /\ Forall (valid tbl) (late s).
 Proof.
-  intros tbl s I. repeat split; apply Forall_forall; intros i H;
-    destruct (I_valid _ _ I i) as (r & E & _); unfold regs; try (exists r; exact E);
-    repeat (apply in_or_app; auto; right); auto.
+  intros tbl s I.
+  assert (H : forall i, In i (regs s) -> valid tbl i).
+  { intros i Hi. destruct (I_valid _ _ I i Hi) as (r & E & _). exists r. exact E. }
+  unfold regs in H. repeat split; apply Forall_forall; intros i Hi; apply H.
   - apply in_or_app; auto.
+  - apply in_or_app; right; apply in_or_app; auto.
   - apply in_or_app; right; apply in_or_app; auto.
 Qed.
 
@@ -274,7 +276,7 @@ Lemma finalize_spec : forall tbl s, Inv tbl s -> qlib s = true ->
     ran s' = regs s /\ atexits s' = atexits s /\ fault s' = fault s /\
     (forall j, In j (ledger s') <-> In j (ledger s) /\ ~ In j (regs s) /\ j <> core_id tbl).
 Proof.
-  intros tbl s I Q. unfold finalize. rewrite Q. simpl.
+  intros tbl s I Q. unfold finalize. replace (negb (qlib s) || negb true) with false by (rewrite Q; reflexivity).
   destruct (regs_valid tbl s I) as (Ve & Vn & Vl).
   set (s0 := mkRt (qlib s) (early s) (normal s) (late s) (ledger s) (threads s) (proxies s) (created s) (dirty s) (atexits s) (fault s) []).
   set (s1 := fold_left (cleanup tbl) (early s) s0).
@@ -290,13 +292,13 @@ Proof.
     rewrite (fold_cleanup_ran _ _ _ Ve). simpl. unfold regs. rewrite app_assoc. reflexivity.
   - rewrite x4, x3. simpl. rewrite x1. reflexivity.
   - rewrite f4, f3. simpl. rewrite f1. reflexivity.
-  - intros H. apply In_del in H. destruct H as [H Hc]. unfold s4 in H. apply (fold_cleanup_ledger _ _ _ _ Vl) in H.
-    destruct H as [H Hl]. unfold s3 in H. apply (fold_cleanup_ledger _ _ _ _ Vn) in H. destruct H as [H Hn]. simpl in H.
-    unfold s1 in H. apply (fold_cleanup_ledger _ _ _ _ Ve) in H. destruct H as [H He]. simpl in H.
-    split; [exact H|]. split; [|exact Hc]. unfold regs. intros K. apply in_app_or in K. destruct K as [K|K]; [auto|].
+  - intros HH. apply In_del in HH. destruct HH as [HH Hc]. unfold s4 in HH. apply (fold_cleanup_ledger _ _ _ _ Vl) in HH.
+    destruct HH as [HH Hl]. unfold s3 in HH. apply (fold_cleanup_ledger _ _ _ _ Vn) in HH. destruct HH as [HH Hn]. simpl in HH.
+    unfold s1 in HH. apply (fold_cleanup_ledger _ _ _ _ Ve) in HH. destruct HH as [HH He]. simpl in HH.
+    split; [exact HH|]. split; [|exact Hc]. unfold regs. intros K. apply in_app_or in K. destruct K as [K|K]; [auto|].
     apply in_app_or in K. destruct K; auto.
-  - intros (H & Hr & Hc). apply In_del. split; [|exact Hc]. unfold regs in Hr.
+  - intros (HH & Hr & Hc). apply In_del. split; [|exact Hc]. unfold regs in Hr.
     unfold s4. apply (fold_cleanup_ledger _ _ _ _ Vl). split; [|intro; apply Hr; apply in_or_app; right; apply in_or_app; auto].
     unfold s3. apply (fold_cleanup_ledger _ _ _ _ Vn). split; [|intro; apply Hr; apply in_or_app; right; apply in_or_app; auto].
-    simpl. unfold s1. apply (fold_cleanup_ledger _ _ _ _ Ve). split; [exact H|intro; apply Hr; apply in_or_app; auto].
+    simpl. unfold s1. apply (fold_cleanup_ledger _ _ _ _ Ve). split; [exact HH|intro; apply Hr; apply in_or_app; auto].
 Qed.
